@@ -57,7 +57,7 @@ func main() {
 	out.Imports = "From Verif Require Import Check.C04.\n"
 	out.Rule = "handshake, status, keep-alive, compression, transfer, login plugin messages, encryption request/response, login success, plugin message, player-info remove: " +
 		"every registration at the protocols on both sides of each format change, generated values; login start with/without key and holder; disconnect with a plain text reason in every state; " +
-		"player-info update: every subset of the actions in canonical order and every permutation of up to 3 (quick: a sample of the 4-permutations; thorough: all 1680) with 0-3 entries; " +
+		"player-info update: every subset of the actions in canonical order, every permutation of 2, of 3 and of 4 actions (quick: all 2-permutations, samples of the 3- and 4-permutations; thorough: all 336 and 1680) with 0-3 entries; " +
 		"non-trivial = non-empty body"
 	era := map[int]bool{}
 	for _, v := range eraVersions {
@@ -182,7 +182,15 @@ func main() {
 			sets = append(sets, all)
 		}
 		for k := 2; k <= maxK; k++ {
-			sets = append(sets, perms(all, k)...)
+			ps := perms(all, k)
+			if k == 3 && f.Tier == "quick" { // quick: a sample of the 336 3-permutations
+				cr := rng.Fork()
+				for i := 0; i < 120; i++ {
+					sets = append(sets, ps[cr.Intn(len(ps))])
+				}
+				continue
+			}
+			sets = append(sets, ps...)
 		}
 		p4 := perms(all, 4)
 		if f.Tier == "thorough" && full {
@@ -215,6 +223,19 @@ func main() {
 		}
 	}
 	_ = chat.SystemMessageType
+	frag, _ := pktgen.FragmentNames()
+	var translated, hand []string
+	for tn := range refTypes {
+		if frag[tn] {
+			translated = append(translated, tn)
+		} else {
+			hand = append(hand, tn)
+		}
+	}
+	sort.Strings(translated)
+	sort.Strings(hand)
+	out.Extra("fragment_coverage", map[string]any{"reference_types_with_translated_encoder": translated, "reference_types_not_translated": hand,
+		"hand_modelled": []string{"playerinfo.Upsert"}, "correspondence_only": []string{"packet.ServerLogin", "packet.Disconnect"}})
 	out.Extra("encoder_rejected", rejected)
 	out.Finish()
 }
